@@ -1,6 +1,7 @@
 package main
 
 import (
+	"bytes"
 	"crypto/elliptic"
 	"math/rand"
 
@@ -129,6 +130,23 @@ func genOrigin(c *ctx, emit func(ev)) {
 				variants = append(variants, innerNul)
 			}
 		}
+		inner := variants[len(variants)-1] // (the inner-NUL variant when n >= 2)
+		if n >= 1 && i%5 != 1 && i%5 != 3 {
+			// names a canonicalising implementation would conflate: other letter case, surrounding white space, a
+			// trailing dot - to the issuer these are other origins
+			cat := func(a []byte, b ...byte) []byte { return append(append([]byte{}, a...), b...) }
+			flipped := append([]byte{}, name...)
+			for k := range flipped {
+				if (flipped[k] >= 'a' && flipped[k] <= 'z') || (flipped[k] >= 'A' && flipped[k] <= 'Z') {
+					flipped[k] ^= 0x20
+					break
+				}
+			}
+			variants = append(variants, cat(name, ' '), cat([]byte{' '}, name...), cat(name, '.'), cat(name, '\t'), cat(name, '\n'))
+			if !bytes.Equal(flipped, name) {
+				variants = append(variants, flipped)
+			}
+		}
 		steps := []any{}
 		short := []byte("s.example")
 		steps = append(steps, ev{"k": "R", "o": B(short)})
@@ -143,6 +161,8 @@ func genOrigin(c *ctx, emit func(ev)) {
 		steps = append(steps, ev{"k": "E", "name": B(v)})
 		if n >= 3 {
 			// a registered name with an inner NUL is served as itself, not as its prefix
+			steps = append(steps, ev{"k": "E", "name": B(inner)})
+			// ... and so is the last of the other look-alikes
 			steps = append(steps, ev{"k": "E", "name": B(variants[len(variants)-1])})
 			steps = append(steps, ev{"k": "E", "name": B(name[:n/2])})
 		}
